@@ -14,12 +14,19 @@ type runFn func(t *Trace, rng *Rng, tier string, args []string)
 
 var props = map[string]runFn{}
 
+// childModes are re-executions of this binary as a workload process (crash harness)
+var childModes = map[string]func(){}
+
 func main() {
 	if len(os.Args) < 2 {
 		fmt.Fprintln(os.Stderr, "usage: run <prop> [-tier quick|thorough] [-seed N] [-out DIR] [extra...]")
 		os.Exit(2)
 	}
 	prop := os.Args[1]
+	if f, ok := childModes[prop]; ok {
+		f()
+		return
+	}
 	fs := flag.NewFlagSet(prop, flag.ExitOnError)
 	tier := fs.String("tier", "quick", "quick|thorough")
 	seed := fs.Uint64("seed", 1, "seed")
